@@ -4,7 +4,7 @@ import CocoVerif.Props.C18
 /-!
 # C19 — arbitrary byte strings: what a *successful* run has written
 
-For PIX, MAX (table modes), CM3, RAT and raw VEF the theorems below take **any** byte string and any
+For PIX, MAX (all nine pixel modes), CM3, RAT and raw VEF the theorems below take **any** byte string and any
 successful run of the decoder model and give the exact number of samples written, as a function of
 the input.  Each statement isolates the listed finding of that format as an explicit arithmetic
 condition: where the condition holds the file is complete, where it fails the decoder "succeeds"
@@ -85,20 +85,76 @@ theorem flatMap_table_length (arte : Nat) (harte : arte ∈ tableModes) :
       simp [hb, ih]
       omega
 
-/-- the number of samples MAX writes for `rows` rows of `cols` pixels from **any** data -/
-theorem maxRows_length (arte cols rows : Nat) (harte : arte ∈ tableModes) (bs : List Nat)
-    (hb : ∀ b ∈ bs, b < 256) :
-    (maxRows arte cols rows bs).length = 24 * min (rows * (cols / 8)) bs.length := by
-  rw [maxRows_table arte cols harte rows bs,
-    flatMap_table_length arte harte _ (fun x hx => hb x (List.mem_of_mem_take hx))]
-  simp
+/-! the two artifact modes (`-br`, `-rb`): the filter carries state from pixel to pixel, but writes three
+samples per pixel whatever the state -/
+
+theorem artPixel_length (st : ArtState) (bit : Nat) : (artPixel st bit).1.length = 3 := by
+  simp [artPixel]
+
+theorem artFold_length : ∀ (bits : List Nat) (acc : Bytes × ArtState),
+    (bits.foldl (fun (acc : Bytes × ArtState) bit =>
+        let (o, s') := artPixel acc.2 bit
+        (acc.1 ++ o, s')) acc).1.length = acc.1.length + 3 * bits.length
+  | [], acc => by simp
+  | b :: bs, acc => by
+      simp only [List.foldl_cons]
+      rw [artFold_length bs]
+      simp [artPixel_length]
+      omega
+
+theorem artByte_length (arte : Nat) (st : ArtState) (v : Nat) : (artByte arte st v).1.length = 24 := by
+  unfold artByte
+  rw [artFold_length]
+  simp [artBits]
+
+theorem artRowFold_length (arte : Nat) : ∀ (row : List Nat) (acc : Bytes × ArtState),
+    (row.foldl (fun (acc : Bytes × ArtState) v =>
+        let (o, s') := artByte arte acc.2 v
+        (acc.1 ++ o, s')) acc).1.length = acc.1.length + 24 * row.length
+  | [], acc => by simp
+  | b :: bs, acc => by
+      simp only [List.foldl_cons]
+      rw [artRowFold_length arte bs]
+      simp [artByte_length]
+      omega
+
+def allModes : List Nat := [0, 1, 2, 3, 4, 5, 6, 7, 8]
+
+/-- one row, any of the nine pixel modes: 24 samples per data byte -/
+theorem maxRow_length (arte : Nat) (harte : arte ∈ allModes) (row : List Nat) (hb : ∀ b ∈ row, b < 256) :
+    (maxRow arte row).length = 24 * row.length := by
+  unfold maxRow
+  split
+  · rw [artRowFold_length]; simp
+  · next h =>
+    have ht : arte ∈ tableModes := by
+      simp only [Bool.or_eq_true, beq_iff_eq, not_or] at h
+      simp [allModes] at harte
+      simp [tableModes]
+      omega
+    exact flatMap_table_length arte ht row hb
+
+/-- the number of samples MAX writes for `rows` rows of `cols` pixels from **any** data, in any mode -/
+theorem maxRows_length (arte cols : Nat) (harte : arte ∈ allModes) : ∀ (rows : Nat) (bs : List Nat),
+    (∀ b ∈ bs, b < 256) → (maxRows arte cols rows bs).length = 24 * min (rows * (cols / 8)) bs.length
+  | 0, bs, _ => by simp [maxRows]
+  | k + 1, bs, hb => by
+      have ih := maxRows_length arte cols harte k (bs.drop (cols / 8)) (fun x hx => hb x (List.mem_of_mem_drop hx))
+      have hr := maxRow_length arte harte (bs.take (cols / 8)) (fun x hx => hb x (List.mem_of_mem_take hx))
+      simp only [maxRows, List.length_append, ih, hr, List.length_take, List.length_drop]
+      generalize cols / 8 = q
+      generalize bs.length = n
+      have : (k + 1) * q = k * q + q := Nat.succ_mul k q
+      rw [this]
+      generalize k * q = x
+      omega
 
 /-- MAX with a standard header, arbitrary bytes: a successful run announces the height the length
 field dictates; it has written all `3·cols·rows` samples **iff** the file holds at least
 `rows · cols/8` data bytes (the listed finding `max-short-row-read` is the complement; widths that
 are not a multiple of 8 are the listed finding `max-width-not-multiple-of-8`). -/
 theorem max_header_complete_iff (arte cols : Nat) (bs out : List Nat)
-    (harte : arte ∈ tableModes) (hcols : cols % 8 = 0) (hb : ∀ b ∈ bs, b < 256)
+    (harte : arte ∈ allModes) (hcols : cols % 8 = 0) (hb : ∀ b ∈ bs, b < 256)
     (hok : CocoVerif.Model.Img.max { arte := arte, cols := cols } bs = .ok out) :
     ∃ h1 h2 payload, bs[1]? = some h1 ∧ bs[2]? = some h2 ∧
       out = ppmHeader "P6" cols (8 * (h1 * 256 + h2) / cols) ++ payload ∧
@@ -121,7 +177,7 @@ theorem max_header_complete_iff (arte cols : Nat) (bs out : List Nat)
           have hb'' : bs[2]? = some b := by
             rw [List.getElem?_take] at hb'; split at hb' <;> simp_all
           refine ⟨a, b, _, ha', hb'', hok.symm, ?_⟩
-          rw [maxRows_length arte cols _ harte _ (fun x hx => hb x (List.mem_of_mem_drop hx))]
+          rw [maxRows_length arte cols harte _ _ (fun x hx => hb x (List.mem_of_mem_drop hx))]
           obtain ⟨q, hq⟩ : ∃ q, cols = 8 * q := ⟨cols / 8, by omega⟩
           generalize 8 * (a * 256 + b) / cols = rows
           have hq8 : cols / 8 = q := by omega
@@ -136,7 +192,7 @@ theorem max_header_complete_iff (arte cols : Nat) (bs out : List Nat)
 
 /-- the same for an explicit `-r rows` (the header's length field is not consulted) -/
 theorem max_rows_complete_iff (arte cols rows : Nat) (bs out : List Nat)
-    (harte : arte ∈ tableModes) (hcols : cols % 8 = 0) (hb : ∀ b ∈ bs, b < 256)
+    (harte : arte ∈ allModes) (hcols : cols % 8 = 0) (hb : ∀ b ∈ bs, b < 256)
     (hok : CocoVerif.Model.Img.max { arte := arte, cols := cols, rows := some rows } bs = .ok out) :
     ∃ payload, out = ppmHeader "P6" cols rows ++ payload ∧
       (payload.length = 3 * cols * rows ↔ rows * (cols / 8) ≤ (bs.drop 5).length) := by
@@ -148,7 +204,7 @@ theorem max_rows_complete_iff (arte cols rows : Nat) (bs out : List Nat)
     · simp [throw, throwThe, MonadExceptOf.throw] at hok
     · simp only [Except.ok.injEq] at hok
       refine ⟨_, hok.symm, ?_⟩
-      rw [maxRows_length arte cols _ harte _ (fun x hx => hb x (List.mem_of_mem_drop hx))]
+      rw [maxRows_length arte cols harte _ _ (fun x hx => hb x (List.mem_of_mem_drop hx))]
       obtain ⟨q, hq⟩ : ∃ q, cols = 8 * q := ⟨cols / 8, by omega⟩
       have hq8 : cols / 8 = q := by omega
       rw [hq8, hq]
@@ -161,7 +217,7 @@ theorem max_rows_complete_iff (arte cols rows : Nat) (bs out : List Nat)
 
 /-- Newsroom header, arbitrary bytes -/
 theorem max_newsroom_complete_iff (arte : Nat) (bs out : List Nat)
-    (harte : arte ∈ tableModes) (hb : ∀ b ∈ bs, b < 256)
+    (harte : arte ∈ allModes) (hb : ∀ b ∈ bs, b < 256)
     (hok : CocoVerif.Model.Img.max { arte := arte, newsroom := true } bs = .ok out) :
     ∃ c r payload, bs[0]? = some c ∧ bs[1]? = some r ∧ out = ppmHeader "P6" (c * 8) r ++ payload ∧
       (payload.length = 3 * (c * 8) * r ↔ r * c ≤ (bs.drop 2).length) := by
@@ -176,7 +232,7 @@ theorem max_newsroom_complete_iff (arte : Nat) (bs out : List Nat)
       have := congrArg (fun l => l[1]?) hcr
       simpa [List.getElem?_take] using this
     refine ⟨c, r, _, h0, h1, hok.symm, ?_⟩
-    rw [maxRows_length arte _ _ harte _ (fun x hx => hb x (List.mem_of_mem_drop hx))]
+    rw [maxRows_length arte _ harte _ _ (fun x hx => hb x (List.mem_of_mem_drop hx))]
     have hq8 : c * 8 / 8 = c := by omega
     rw [hq8]
     have : 3 * (c * 8) * r = 24 * (r * c) := by
